@@ -94,7 +94,47 @@ static int c09_tokens (MIR_context_t ctx, struct c2mir_options *ops) {
   return nerr;
 }
 
+static void c09_hex (const char *tag, const char *s, size_t n) {
+  printf ("%s ", tag);
+  if (n == 0) printf ("-");
+  for (size_t i = 0; i < n; i++) printf ("%02x", (unsigned char) s[i]);
+  printf ("\n");
+}
+
+/* --strings file : one hex-encoded byte string per line; prints
+     S <stringify (s)>   D <destringify (stringify (s))>   R <destringify (s)>
+   using /repo's static functions `stringify` and `destringify` (c2mir.c:1778-1800) */
+static int c09_strings (const char *fname) {
+  FILE *f = fopen (fname, "r");
+  char line[4096], buf[2048];
+  MIR_context_t ctx = MIR_init ();
+  MIR_alloc_t alloc = MIR_get_alloc (ctx);
+  VARR (char) * v1, *v2;
+
+  if (!f) return 2;
+  VARR_CREATE (char, v1, alloc, 64);
+  VARR_CREATE (char, v2, alloc, 64);
+  while (fgets (line, sizeof (line), f)) {
+    size_t n = 0;
+    for (char *p = line; p[0] && p[1] && p[0] != '\n' && p[0] != '-'; p += 2) {
+      unsigned x;
+      sscanf (p, "%2x", &x);
+      buf[n++] = (char) x;
+    }
+    buf[n] = 0;
+    stringify (buf, v1);
+    c09_hex ("S", VARR_ADDR (char, v1), VARR_LENGTH (char, v1));
+    VARR_PUSH (char, v1, 0);
+    destringify (VARR_ADDR (char, v1), v2);
+    c09_hex ("D", VARR_ADDR (char, v2), VARR_LENGTH (char, v2));
+    destringify (buf, v2);
+    c09_hex ("R", VARR_ADDR (char, v2), VARR_LENGTH (char, v2));
+  }
+  return 0;
+}
+
 int main (int argc, char **argv) {
+  if (argc >= 3 && strcmp (argv[1], "--strings") == 0) return c09_strings (argv[2]);
   if (argc < 2) {
     fprintf (stderr, "usage: c09_pp cases-file\n");
     return 2;
